@@ -43,10 +43,24 @@ Oracle (per case, all cells of the rendered area):
 Nothing is asserted for cells in margins, dividers, borders, the Overlay's bottom widget (Overlay
 documents "ignore if outside of top_w") and unselectable children (clause 3): there Columns/Padding
 snap to the nearest selectable cell on purpose.  The events are still sent there (no crash).
+
+Nothing at all is reported before the fit precondition has been established on a drawing: the answer of
+the never-rendered tree is held back until the first render passed the fit check, and a render that raises
+is discarded (rendering failures are C01's) unless it is an instance of a listed cursor defect.
+
+Known findings are matched by **root cause**, not by symptom: ``FixedOverlay`` / ``FixedFiller`` /
+``FixedGridFlow`` below are subclasses that override exactly the one method each proposed patch touches.
+When a violation is about to be raised, the same case is re-run with one of them substituted (then with a
+minimal set of them): a violation that no longer occurs (the tree still fitting) gets the mark
+``[fixed-by:<name>]`` and only marked violations can match a KNOWN predicate.  Marked violations are
+remembered and the case goes on with the remaining cells, so the campaign searches past them.
 """
 from __future__ import annotations
 
 import functools
+import json
+import os
+import re
 import warnings
 
 from hypothesis import strategies as st
@@ -55,7 +69,7 @@ import urwid
 from urwid.widget.constants import WHSettings
 from urwid.widget.widget import WidgetWarning
 from vlib import widths as W
-from vlib.runner import Discard, Violation, innermost_is_urwid, load_known_ids, urwid_frame
+from vlib.runner import ROOT, Discard, Violation, innermost_is_urwid, urwid_frame
 from vlib.widths import use_encoding
 
 PROPERTY = "C09"
@@ -86,8 +100,17 @@ ASSUMPTIONS = [
 
 MODE = "utf8"
 STATS: dict[str, int] = {}
-PACK_MARK = "[pack-overlay-on-focus-path]"
-FILLER_MARK = "[filler-on-path rows!=cols]"
+
+
+def fix_mark(name):
+    return f"[fixed-by:{name}]"
+
+
+def fixed_by(v):
+    """names in the attribution mark of a violation message"""
+    m = re.search(r"\[fixed-by:([a-z+\-]+)\]$", v.message)
+    return m.group(1).split("+") if m else []
+
 
 
 def stat(label, n=1):
@@ -127,6 +150,52 @@ CheckBoxProbe = _probe_class(urwid.CheckBox)
 RadioProbe = _probe_class(urwid.RadioButton)
 TextProbe = _probe_class(urwid.Text)
 FillProbe = _probe_class(urwid.SolidFill)
+
+
+# ---------------------------------------------------------------------------------------------
+# root-cause attribution for known findings: subclasses carrying the *proposed* one-method patch.
+# They are used only after an unlisted-looking violation, to re-run the same case: a violation that
+# disappears when exactly one of these replaces the urwid class is attributed to that defect (and to
+# nothing else), so the KNOWN predicates below cannot hide a different fault.
+
+
+class FixedOverlay(urwid.Overlay):
+    def get_cursor_coords(self, size):
+        if not hasattr(self.top_w, "get_cursor_coords"):
+            return None
+        real_size = self.pack(size, True)
+        (maxcol, maxrow) = real_size
+        left, right, top, bottom = self.calculate_padding_filler(real_size, True)
+        coords = self.top_w.get_cursor_coords(self.top_w_size(real_size, left, right, top, bottom))
+        if coords is None:
+            return None
+        x, y = coords
+        if y >= maxrow:
+            y = maxrow - 1
+        return x + left, y + top
+
+
+class FixedFiller(urwid.Filler):
+    def move_cursor_to_coords(self, size, col, row):
+        maxcol, maxrow = self.pack(size, True)
+        if not hasattr(self._original_widget, "move_cursor_to_coords"):
+            return True
+        top, bottom = self.filler_values(size, True)
+        if row < top or row >= maxrow - bottom:
+            return False
+        if self.height_type == WHSettings.PACK:
+            return self._original_widget.move_cursor_to_coords((maxcol,), col, row - top)
+        return self._original_widget.move_cursor_to_coords((maxcol, maxrow - top - bottom), col, row - top)
+
+
+class FixedGridFlow(urwid.GridFlow):
+    def pack(self, size=(), focus=False):
+        if size:
+            self.get_display_widget(size)
+        return super().pack(size, focus)
+
+
+FIXES = {"overlay-cursor": ("over", FixedOverlay), "filler-move": ("filler", FixedFiller), "gridflow-pack": ("grid", FixedGridFlow)}
 
 FLOW_LEAVES = ("edit", "icon", "btn", "chk", "radio", "text")
 LEAF_W = {"edit": 3, "icon": 2, "text": 2, "btn": 6, "chk": 7, "radio": 7, "fill": 1}
@@ -481,7 +550,7 @@ class Registry:
         self.probes = []  # pid -> dict(w, node, sel, bg, mv)
 
 
-def build(node, reg, bg=False, mv=True, anc=()):
+def build(node, reg, bg=False, mv=True, anc=(), fixes=frozenset()):
     """fresh widget tree for `node`.  bg: below an Overlay's bottom slot; mv: every widget from the
     root down to here implements move_cursor_to_coords; anc: kinds of the ancestors."""
     k = node["k"]
@@ -494,7 +563,7 @@ def build(node, reg, bg=False, mv=True, anc=()):
             reg.probes.append({"w": w, "node": node, "sel": k in SELECTABLE_LEAVES, "bg": bg, "mv": mv, "anc": anc})
         return w
     sub_mv = mv and k not in NO_MOVE
-    ws = [build(kid, reg, bg, sub_mv, (*anc, k)) for kid in kids]
+    ws = [build(kid, reg, bg, sub_mv, (*anc, k), fixes) for kid in kids]
     if k == "pile":
         items = [(("pack", w) if o[0] == "pack" else (o[0], o[1], w)) for o, w in zip(node["opts"], ws)]
         return urwid.Pile(items, focus_item=node["f"])
@@ -502,7 +571,7 @@ def build(node, reg, bg=False, mv=True, anc=()):
         items = [(("pack", w) if o[0] == "pack" else (o[0], o[1], w)) for o, w in zip(node["opts"], ws)]
         return urwid.Columns(items, dividechars=node["div"], focus_column=node["f"], box_columns=node["boxcols"] or None)
     if k == "grid":
-        return urwid.GridFlow(ws, node["cw"], node["hs"], node["vs"], node["al"], focus=node["f"])
+        return (FixedGridFlow if "gridflow-pack" in fixes else urwid.GridFlow)(ws, node["cw"], node["hs"], node["vs"], node["al"], focus=node["f"])
     if k == "lb":
         lb = urwid.ListBox(urwid.SimpleFocusListWalker(ws))
         if node["f"] is not None:
@@ -515,7 +584,7 @@ def build(node, reg, bg=False, mv=True, anc=()):
         ftr = next(it) if node["ftr"] else None
         return urwid.Frame(body, hdr, ftr, focus_part=node["fp"])
     if k == "filler":
-        return urwid.Filler(ws[0], valign=_t(node["va"]), height=_t(node["height"]), top=node["top"], bottom=node["bottom"])
+        return (FixedFiller if "filler-move" in fixes else urwid.Filler)(ws[0], valign=_t(node["va"]), height=_t(node["height"]), top=node["top"], bottom=node["bottom"])
     if k == "pad":
         return urwid.Padding(ws[0], align=_t(node["al"]), width=_t(node["width"]), left=node["left"], right=node["right"])
     if k == "over":
@@ -523,7 +592,7 @@ def build(node, reg, bg=False, mv=True, anc=()):
             bottom = build({"k": "fill", "mode": "B", "leaf": {"k": "fill"}, "nc": 1, "nr": 1, "kids": []}, reg, True, False)
         else:
             bottom = urwid.SolidFill(".")
-        return urwid.Overlay(
+        return (FixedOverlay if "overlay-cursor" in fixes else urwid.Overlay)(
             ws[0], bottom, _t(node["al"]), _t(node["width"]), _t(node["va"]), _t(node["height"]),
             left=node["ml"], right=node["mr"], top=node["mt"], bottom=node["mb"],
         )
@@ -584,60 +653,110 @@ def pid_at(grid, c, r):
     return None
 
 
-def pack_overlay_on_focus_path(root):
-    """does the focus chain of the live tree pass through an Overlay shown with height='pack'?"""
-    w = root
-    for _ in range(64):
-        if isinstance(w, urwid.Overlay):
-            if w.height_type == WHSettings.PACK:
-                return True
-            w = w.top_w
-        elif isinstance(w, urwid.WidgetDecoration):
-            w = w.original_widget
-        elif isinstance(w, (urwid.Pile, urwid.Columns, urwid.GridFlow, urwid.Frame, urwid.ListBox)):
-            w = w.focus
-            if w is None:
-                return False
-        else:
-            return False
-    return False
-
-
 # ---------------------------------------------------------------------------------------------
 # the check
+
+
+_ACTIVE = None
+
+
+def active_known():
+    """ids of this property's listed known findings; read once per process, and only from
+    known_findings.json and this property's own fragment (other fragments are being written by
+    other builders while this runs)"""
+    global _ACTIVE  # noqa: PLW0603
+    if _ACTIVE is None:
+        ids = set()
+        for path in (os.path.join(ROOT, "known_findings.json"), os.path.join(ROOT, "known_findings.d", f"{PROPERTY}.json")):
+            if os.path.exists(path):
+                with open(path) as f:
+                    ids.update(x["id"] for x in json.load(f)["findings"] if x["property"] == PROPERTY and x["status"] == "known")
+        _ACTIVE = ids
+    return _ACTIVE
 
 
 class Skip(Exception):
     """a listed known finding was hit: the dependent assertions are skipped, the case goes on"""
 
 
+def _kinds_of(node, out):
+    out.add(node["k"])
+    for kid in node["kids"]:
+        _kinds_of(kid, out)
+    return out
+
+
 class Harness:
-    def __init__(self, case):
+    def __init__(self, case, fixes=frozenset(), collect=None):
         self.case = case
+        self.fixes = frozenset(fixes)
+        self.collect = collect  # a list: record every violation and go on (attribution re-runs)
         self.mode = "F" if case.get("mode") == "F" else "B"
-        self.known = {k: p for k, p in KNOWN.items() if k in load_known_ids(PROPERTY)}
+        self.known = {k: p for k, p in KNOWN.items() if k in active_known()}
         self.deferred = []
+        self.reruns = {}
         self.root_node = Planner().plan(case["tree"], self.mode)
+        self.kinds = _kinds_of(self.root_node, set())
         cols = self.root_node["nc"] + _int(case.get("dc", 0), 0, 6)
         rows = self.root_node["nr"] + _int(case.get("dr", 0), 0, 4)
         self.size = (cols, rows) if self.mode == "B" else (cols,)
 
     # ---- reporting --------------------------------------------------------------------------
+    def _rerun(self, names):
+        key = frozenset(names)
+        if key not in self.reruns:
+            seen = []
+            try:
+                Harness(self.case, fixes=key, collect=seen).run()
+            except Discard:
+                seen = None
+            self.reruns[key] = seen
+        return self.reruns[key]
+
+    def attribute(self, v):
+        """names of the proposed patches under which this very violation no longer occurs (the tree still
+        fitting): one patch if one suffices, else a minimal set (two listed defects can cooperate)"""
+
+        def gone(names):
+            seen = self._rerun(names)
+            return seen is not None and not any(x.clause == v.clause and x.message == v.message for x in seen)
+
+        names = [name for name, (kind, _cls) in FIXES.items() if kind in self.kinds]
+        for name in names:
+            if gone([name]):
+                return [name]
+        if len(names) > 1 and gone(names):
+            for name in list(names):
+                rest = [n for n in names if n != name]
+                if rest and gone(rest):
+                    names = rest
+            return names
+        return None
+
     def report(self, v):
+        """raise v, unless it is an instance of a listed known finding: then remember it, skip what
+        depends on the failed call and go on with the rest of the case"""
+        if self.collect is not None:
+            self.collect.append(v)
+            raise Skip()
+        name = self.attribute(v)
+        if name is not None:
+            v2 = Violation(v.clause, f"{v.message} {fix_mark('+'.join(name))}")
+            v2.__traceback__ = v.__traceback__
+            v = v2
         for pred in self.known.values():
             try:
-                if pred("tree", self.case, v):
-                    self.deferred.append(v)
-                    raise Skip()
-            except Skip:
-                raise
+                hit = pred("tree", self.case, v)
             except Exception:  # noqa: BLE001
-                continue
+                hit = False
+            if hit:
+                self.deferred.append(v)
+                raise Skip()
         raise v
 
-    def guard(self, root, fn, what):
-        """run an urwid entry point; an exception from inside urwid becomes the runner's exception
-        clause, annotated with the root-cause marker the known-finding predicates look for"""
+    def guard(self, root, fn, what, hold=False):
+        """run an urwid entry point; an exception from inside urwid becomes the runner's exception clause
+        (hold=True: it is returned as ("exc", violation) instead, to be reported once the fit is known)"""
         try:
             return fn()
         except (Violation, Discard, Skip):
@@ -645,22 +764,37 @@ class Harness:
         except Exception as e:  # noqa: BLE001
             if not innermost_is_urwid(e):
                 raise
-            mark = f" {PACK_MARK}" if pack_overlay_on_focus_path(root) else ""
-            v = Violation(f"exception:{type(e).__name__}@{urwid_frame(e)}", f"{type(e).__name__}: {e} in {what}{mark}")
+            v = Violation(f"exception:{type(e).__name__}@{urwid_frame(e)}", f"{type(e).__name__}: {e} in {what}")
             v.__traceback__ = e.__traceback__
+            if hold:
+                return ("exc", v)
             self.report(v)
             raise Skip() from e
 
     # ---- drawing ----------------------------------------------------------------------------
     def fresh(self, probes=True):
         reg = Registry() if probes else None
-        return build(self.root_node, reg), reg
+        return build(self.root_node, reg, fixes=self.fixes), reg
 
     def draw(self, root, reg):
         """render focus=True with an empty cache; -> (canvas, grid, rects, sizes) after the fit check"""
         urwid.CanvasCache.clear()
         del reg.log[:]
-        canv = self.guard(root, lambda: root.render(self.size, True), "render")
+        try:
+            canv = root.render(self.size, True)
+        except Exception as e:  # noqa: BLE001
+            # no drawing, so the fit precondition cannot be established on this tree.  Rendering failures
+            # are C01's business; the exception is pursued here only if it is an instance of a listed
+            # cursor/geometry defect (it disappears, and the tree fits, under that defect's patch).
+            if not innermost_is_urwid(e):
+                raise
+            v = Violation(f"exception:{type(e).__name__}@{urwid_frame(e)}", f"{type(e).__name__}: {e} in render")
+            v.__traceback__ = e.__traceback__
+            if self.collect is not None or self.attribute(v) is None:
+                if self.collect is None:
+                    stat(f"discard:render-raises:{type(e).__name__}@{urwid_frame(e)}")
+                raise Discard() from e
+            self.report(v)
         if canv.cols() != self.size[0] or (self.mode == "B" and canv.rows() != self.size[1]):
             stat("discard:canvas-size")  # C01's business
             raise Discard()
@@ -695,25 +829,26 @@ class Harness:
     def cursor(self, root, what):
         return self.guard(root, lambda: root.get_cursor_coords(self.size), f"get_cursor_coords ({what})")
 
-    def check_cursor(self, root, canv, what):
-        """clause 1 on a tree whose focused rendering is `canv`"""
-        try:
-            got = self.cursor(root, what)
-        except Skip:
+    def check_cursor(self, root, canv, what, got=None):
+        """clause 1 on a tree whose focused rendering is `canv` (got: the answer obtained earlier)"""
+        if not hasattr(root, "get_cursor_coords"):
+            # the root does not implement the cursor protocol (e.g. AttrMap over a SolidFill): outside the quantifier
+            stat("cursor:root-without-protocol")
             return
-        if got != canv.cursor:
-            mark = f" {PACK_MARK}" if pack_overlay_on_focus_path(root) else ""
-            try:
+        try:
+            if got is None:
+                got = ("ok", self.cursor(root, what))
+            if got[1] != canv.cursor:
                 self.report(
                     Violation(
                         "cursor-agree",
-                        f"{what}: get_cursor_coords({self.size}) == {got!r}, render({self.size}, True).cursor == "
-                        f"{canv.cursor!r}{mark}",
+                        f"{what}: get_cursor_coords({self.size}) == {got[1]!r}, render({self.size}, True).cursor == "
+                        f"{canv.cursor!r}",
                     )
                 )
-            except Skip:
-                return
-        stat("cursor:agree:" + ("none" if got is None else "coords"))
+        except Skip:
+            return
+        stat("cursor:agree:" + ("none" if got[1] is None else "coords"))
 
     # ---- clause 2 ---------------------------------------------------------------------------
     def send(self, root, reg, grid, rects, event, button, c, r):
@@ -721,48 +856,48 @@ class Harness:
         del reg.log[:]
         try:
             self.guard(root, lambda: root.mouse_event(self.size, event, button, c, r, True), f"mouse_event at ({c},{r})")
-        except Skip:
-            return
-        if pid is None or reg.probes[pid]["bg"]:
-            stat("mouse:cell-outside-probes")
-            return
-        left, top = rects[pid][0], rects[pid][1]
-        hits = [e for e in reg.log if e[0] == "mouse"]
-        others = sorted({e[1] for e in hits if e[1] != pid})
-        if others:
-            self.report(
-                Violation(
-                    "mouse-only-to-drawn-child",
-                    f"{event!r} button {button} at ({c},{r}), where probe {pid} ({reg.probes[pid]['node']['k']}) is drawn, "
-                    f"was delivered to probes {others}",
-                )
-            )
-        mine = [e for e in hits if e[1] == pid]
-        if not mine:
-            self.report(
-                Violation(
-                    "mouse-delivered",
-                    f"{event!r} button {button} at ({c},{r}): probe {pid} ({reg.probes[pid]['node']['k']}) is drawn there "
-                    f"(its rectangle starts at ({left},{top})) but its mouse_event was not called",
-                )
-            )
-        for e in mine:
-            if (e[5], e[6]) != (c - left, r - top):
+            if pid is None or reg.probes[pid]["bg"]:
+                stat("mouse:cell-outside-probes")
+                return
+            left, top = rects[pid][0], rects[pid][1]
+            kind = reg.probes[pid]["node"]["k"]
+            hits = [e for e in reg.log if e[0] == "mouse"]
+            others = sorted({e[1] for e in hits if e[1] != pid})
+            if others:
                 self.report(
                     Violation(
-                        "mouse-relative-coords",
-                        f"{event!r} button {button} at ({c},{r}): probe {pid} ({reg.probes[pid]['node']['k']}) drawn from "
-                        f"({left},{top}) received (col,row) = ({e[5]},{e[6]}), expected ({c - left},{r - top})",
+                        "mouse-only-to-drawn-child",
+                        f"{event!r} button {button} at ({c},{r}), where probe {pid} ({kind}) is drawn, was delivered to "
+                        f"probes {others}",
                     )
                 )
-        stat("mouse:delivered")
+            mine = [e for e in hits if e[1] == pid]
+            if not mine:
+                self.report(
+                    Violation(
+                        "mouse-delivered",
+                        f"{event!r} button {button} at ({c},{r}): probe {pid} ({kind}) is drawn there (its rectangle "
+                        f"starts at ({left},{top})) but its mouse_event was not called",
+                    )
+                )
+            for e in mine:
+                if (e[5], e[6]) != (c - left, r - top):
+                    self.report(
+                        Violation(
+                            "mouse-relative-coords",
+                            f"{event!r} button {button} at ({c},{r}): probe {pid} ({kind}) drawn from ({left},{top}) "
+                            f"received (col,row) = ({e[5]},{e[6]}), expected ({c - left},{r - top})",
+                        )
+                    )
+            stat("mouse:delivered")
+        except Skip:
+            return
 
     # ---- clause 3 ---------------------------------------------------------------------------
     def move(self, c, r, pid, probe, rect, psize):
         root, _reg = self.fresh(probes=False)
-        if not hasattr(root, "move_cursor_to_coords"):
-            return False
         left, top = rect[0], rect[1]
+        kind = probe["node"]["k"]
         twin = make_leaf(probe["node"]["leaf"], probe=False)
         if hasattr(twin, "move_cursor_to_coords"):
             exp = twin.move_cursor_to_coords(psize, c - left, r - top) is not False
@@ -771,50 +906,34 @@ class Harness:
         what = f"move_cursor_to_coords({self.size}, {c}, {r})"
         try:
             got = self.guard(root, lambda: root.move_cursor_to_coords(self.size, c, r), what)
-        except Skip:
-            return True
-        if bool(got) != exp:
-            mark = ""
-            if self.mode == "B" and self.size[0] != self.size[1] and "filler" in probe["anc"]:
-                mark = f" {FILLER_MARK}"
-            try:
+            if bool(got) != exp:
                 self.report(
                     Violation(
                         "move-accept",
-                        f"{what} returned {got!r}; the cell is ({c - left},{r - top}) of probe {pid} "
-                        f"({probe['node']['k']}, drawn from ({left},{top}) at size {psize}) whose twin "
-                        f"{'accepts' if exp else 'rejects'} it{mark}",
+                        f"{what} returned {got!r}; the cell is ({c - left},{r - top}) of probe {pid} ({kind}, drawn from "
+                        f"({left},{top}) at size {psize}) whose twin {'accepts' if exp else 'rejects'} it",
                     )
                 )
-            except Skip:
-                return True
-        stat("move:accepted" if exp else "move:rejected")
-        if not exp:
-            return True
-        tcur = twin.get_cursor_coords(psize) if hasattr(twin, "get_cursor_coords") else None
-        if tcur is None:
-            stat("move:twin-has-no-cursor")
-            return True
-        want = (left + tcur[0], top + tcur[1])
-        try:
+            stat("move:accepted" if exp else "move:rejected")
+            if not exp:
+                return
+            tcur = twin.get_cursor_coords(psize) if hasattr(twin, "get_cursor_coords") else None
+            if tcur is None:
+                stat("move:twin-has-no-cursor")
+                return
+            want = (left + tcur[0], top + tcur[1])
             cur = self.cursor(root, f"after {what}")
-        except Skip:
-            return True
-        if cur != want:
-            clause = "move-cursor-row" if (cur is None or cur[1] != want[1]) else "move-cursor-col"
-            mark = f" {PACK_MARK}" if pack_overlay_on_focus_path(root) else ""
-            try:
+            if cur != want:
+                clause = "move-cursor-row" if (cur is None or cur[1] != want[1]) else "move-cursor-col"
                 self.report(
                     Violation(
                         clause,
-                        f"after {what} == True the root reports cursor {cur!r}; probe {pid} ({probe['node']['k']}, drawn "
-                        f"from ({left},{top}) at size {psize}) asked for ({c - left},{r - top}) puts it at {tcur!r}, "
-                        f"i.e. {want!r}{mark}",
+                        f"after {what} == True the root reports cursor {cur!r}; probe {pid} ({kind}, drawn from "
+                        f"({left},{top}) at size {psize}) asked for ({c - left},{r - top}) puts it at {tcur!r}, i.e. {want!r}",
                     )
                 )
-            except Skip:
-                return True
-        return True
+        except Skip:
+            return
 
     # ---- the case ---------------------------------------------------------------------------
     def run(self):
@@ -826,32 +945,30 @@ class Harness:
                 pass
             for wm in wlist:
                 if issubclass(wm.category, WidgetWarning):
-                    stat(f"discard:warning:{wm.category.__name__}")
+                    if self.collect is None:
+                        stat(f"discard:warning:{wm.category.__name__}")
                     raise Discard()
         if self.deferred:
             raise self.deferred[0]
 
     def _run(self):
+        count = self.collect is None
         # clause 1, "without rendering": a fresh tree is asked first, then drawn
         root, reg = self.fresh()
-        try:
-            before = ("ok", self.cursor(root, "never rendered tree"))
-        except Skip:
-            before = None
-        canv0, grid0, rects0, sizes0 = self.draw(root, reg)
-        stat("fit")
-        if before is not None and before[1] != canv0.cursor:
-            mark = f" {PACK_MARK}" if pack_overlay_on_focus_path(root) else ""
+        before = None
+        if hasattr(root, "get_cursor_coords"):
+            what = "get_cursor_coords (never rendered tree)"
+            before = self.guard(root, lambda: ("ok", root.get_cursor_coords(self.size)), what, hold=True)
+        canv0, _grid0, rects0, sizes0 = self.draw(root, reg)  # Discard unless the tree fits: nothing is reported before
+        if count:
+            stat("fit")
+        if before is not None and before[0] == "exc":
             try:
-                self.report(
-                    Violation(
-                        "cursor-agree",
-                        f"never rendered tree: get_cursor_coords({self.size}) == {before[1]!r}, the first "
-                        f"render({self.size}, True).cursor == {canv0.cursor!r}{mark}",
-                    )
-                )
+                self.report(before[1])
             except Skip:
                 pass
+        elif before is not None:
+            self.check_cursor(root, canv0, "never rendered tree", before)
         self.check_cursor(root, canv0, "rendered tree")
         ncols, nrows = canv0.cols(), canv0.rows()
 
@@ -883,8 +1000,6 @@ class Harness:
                 c, r = probe_cells[i % len(probe_cells)]
             else:
                 c, r = i % ncols, (i // ncols) % nrows
-            if canv.rows() != nrows or r >= len(grid):
-                break
             self.send(root, reg, grid, rects, "mouse press", 1, c, r)
             stat("click")
             canv, grid, rects, _sizes = self.draw(root, reg)
@@ -1116,22 +1231,29 @@ def shard(ctx):
 # known findings (active only if listed in known_findings.json / known_findings.d with status "known")
 
 
-def _k_overlay_flow_top(sub, case, v):
-    return PACK_MARK in v.message and (
-        v.clause in ("cursor-agree", "move-cursor-row", "move-cursor-col") or v.clause.startswith("exception:")
+def _k_overlay_none(sub, case, v):
+    return (
+        fixed_by(v) == ["overlay-cursor"]
+        and v.clause == "exception:TypeError@widget/overlay.py:get_cursor_coords"
+        and "NoneType" in v.message
     )
 
 
-def _k_overlay_none(sub, case, v):
-    return v.clause == "exception:TypeError@widget/overlay.py:get_cursor_coords" and "NoneType" in v.message
+def _k_overlay_flow_top(sub, case, v):
+    return "overlay-cursor" in fixed_by(v) and not _k_overlay_none(sub, case, v)
 
 
 def _k_filler_move(sub, case, v):
-    return v.clause == "move-accept" and FILLER_MARK in v.message and "whose twin accepts it" in v.message
+    return "filler-move" in fixed_by(v) and v.clause.startswith("move-")
+
+
+def _k_gridflow_pack(sub, case, v):
+    return "gridflow-pack" in fixed_by(v)
 
 
 KNOWN = {
     "C09-overlay-cursor-none": _k_overlay_none,
     "C09-overlay-cursor-flow-top": _k_overlay_flow_top,
     "C09-filler-move-maxcol": _k_filler_move,
+    "C09-gridflow-pack-stale": _k_gridflow_pack,
 }
